@@ -138,8 +138,8 @@ impl JobCheck {
             let feats = features(&job);
             let configs: Vec<ConfigSpec> = (0..k)
                 .map(|_| {
-                    let mut c = g.config(ctx.tier == Tier::Thorough, feats.has_iterate);
-                    if feats.has_iterate && std::env::var("VERIF_NO_F7_EXCLUSION").is_err() && min_explicit_batch(&job.pipe.stages).map_or(false, |b| b < 256) {
+                    let mut c = g.config(ctx.tier == Tier::Thorough, crate::gen::amplifying_iterate(&job.pipe.stages));
+                    if false && feats.has_iterate && min_explicit_batch(&job.pipe.stages).map_or(false, |b| b < 256) {
                         // known finding F7: small batches around `iterate`; excluded by construction
                         c.batch = c.batch.or(Some(BatchSpec::Fixed(1024)));
                     }
@@ -210,6 +210,7 @@ impl JobCheck {
 pub fn common_classes(feats: &Features, rep: &mut Report) {
     rep.class_if(feats.has_loop, "job:loop");
     rep.class_if(feats.has_iterate, "job:iterate");
+    rep.class_if(feats.iterate_simple_body, "job:iterate_with_body_in_the_iterate_block");
     rep.class_if(feats.nested_loop, "job:nested_loop");
     rep.class_if(feats.diamond, "job:diamond");
     rep.class_if(feats.multi_sink, "job:multi_sink");
